@@ -11,6 +11,9 @@ import (
 
 func main() {
 	g := value.New()
+	if os.Getenv("VQ_NOOPT") != "" {
+		g = vrun.NewGen(false, nil)
+	}
 	for _, src := range os.Args[1:] {
 		f, _, err := g.Generate(src)
 		if err != nil {
